@@ -1,13 +1,20 @@
 (* C05 -- netmask / wildcard shaped values and preserved addresses are left alone; nothing collides with a preserved network. *)
-From Coq Require Import List Bool Arith NArith Lia.
+From Coq Require Import String.
+From Coq Require Import List Bool Arith NArith ZArith Lia.
 Import ListNotations.
-Require Import PPCore PPHost Memo MemoProofs Pinned Str Mask IpModel.
+Require Import PPCore PPHost Memo MemoProofs Pinned Str Mask IpModel PyLib G_fn_ip RefMask.
 
 (* _is_mask accepts exactly the 33 + 33 values "k low ones" / "ones from bit k up", for ALL 2^32 inputs *)
 Theorem C05_is_mask_iff_mask_or_wildcard_shape :
   forall x : N, (x < 2 ^ 32)%N ->
   (is_mask x = true <-> exists k : N, (k <= 32)%N /\ (x = low_ones k \/ x = high_ones k)).
 Proof. exact is_mask_spec. Qed.
+
+(* TIE A (function level): the Gallina code GENERATED on this run from IpAnonymizer._is_mask computes exactly that test *)
+Theorem C05_generated_is_mask_is_the_mask_test :
+  forall (py_call : pyval -> pyval -> PyLib.res) (fuel : nat) (self : pyval) (x : N),
+  gen_IpAnonymizer___is_mask py_call fuel self (VInt (Z.of_N x)) = Normal (VTuple [VBool (is_mask x); self]).
+Proof. exact gen_is_mask_refines. Qed.
 
 (* should_anonymize is false exactly for mask-shaped values and members of a preserved network *)
 Theorem C05_skip_iff_mask_or_preserved :
@@ -48,5 +55,6 @@ Example C05_instances :
 Proof. vm_compute. repeat split; reflexivity. Qed.
 
 Print Assumptions C05_is_mask_iff_mask_or_wildcard_shape.
+Print Assumptions C05_generated_is_mask_is_the_mask_test.
 Print Assumptions C05_skip_iff_mask_or_preserved.
 Print Assumptions C05_no_collision_with_preserved_networks.
